@@ -192,7 +192,12 @@ pub(super) fn derive_schema(input: TokenStream) -> syn::Result<TokenStream> {
                     }
 
                     if field_attrs.serde.flatten {
-                        properties.push(quote! {
+                        properties.push(if is_optional_field {quote! {
+                            /* an absent `Option` (or defaulted) member brings none of its keys */
+                            for (property_name, property_schema, _) in ::ohkami::openapi::schema::RawSchema::from(#property_schema).into_properties() {
+                                schema = schema.optional(property_name, property_schema);
+                            }
+                        }} else {quote! {
                             for (property_name, property_schema, required) in ::ohkami::openapi::schema::RawSchema::from(#property_schema).into_properties() {
                                 if required {
                                     schema = schema.property(property_name, property_schema);
@@ -200,7 +205,7 @@ pub(super) fn derive_schema(input: TokenStream) -> syn::Result<TokenStream> {
                                     schema = schema.optional(property_name, property_schema);
                                 }
                             }
-                        })
+                        }})
                     } else {
                         let property_name = LitStr::new(&name, name_span);
 
